@@ -511,7 +511,12 @@ LOOK_THROUGH = frozenset((
     'std::iter::IntoIterator::into_iter',
     'std::ops::Deref::deref',
     'std::ops::DerefMut::deref_mut',
+    'std::ops::Try::branch',
     'std::option::Option::as_deref',
+    'std::option::Option::ok_or',
+    'std::option::Option::ok_or_else',
+    'std::result::Result::map_err',
+    'std::result::Result::ok',
     'std::option::Option::as_ref',
     'std::option::Option::cloned',
     'std::option::Option::copied',
